@@ -375,7 +375,7 @@ func storeOnAllPathsAfter(A *ssa.Alloc, fld string, at ssa.Instruction) bool {
 		}
 		storeBlocks[b] = true
 		for _, s := range b.Succs {
-			cut[edge{b, s}] = true
+			cut[edge{from: b, to: s}] = true
 		}
 	}
 	if len(storeBlocks) == 0 {
